@@ -227,6 +227,28 @@ func genFiles(th bool, emit func(src string)) {
 			emit(file(c, d))
 		}
 	}
+	// (A2) identifiers: every single byte, and every string of 2-3 characters over
+	// the boundaries of the identifier classes, as package name and as import name
+	var idents []string
+	for b := 0; b < 256; b++ {
+		idents = append(idents, string([]byte{byte(b)}))
+	}
+	idChars := []string{"A", "Z", "a", "z", "0", "9", "_", "M", "é", "@", "[", "`", "{", "/", ":"}
+	for _, c1 := range idChars {
+		for _, c2 := range idChars {
+			idents = append(idents, c1+c2)
+			for _, c3 := range []string{"Z", "z", "9", "_"} {
+				idents = append(idents, c1+c2+c3)
+			}
+		}
+	}
+	for _, id := range idents {
+		emit("package " + id + "\nimport \"a\"\n")
+		emit("package " + id + ";import \"a\"\n")
+		emit("package p\nimport " + id + " \"a\"\nimport \"b\"\n")
+		emit("package p\nimport " + id + "\"a\"\nimport \"b\"\n")
+		emit("package p\nimport (" + id + " \"a\"; \"b\")\nvar " + id + " = 1\n")
+	}
 	// (B) reduced contexts x every pair (and, thorough, triple) of declarations from the reduced set
 	for _, c := range small {
 		for _, d1 := range declsSmall {
@@ -497,7 +519,7 @@ func main() {
 	})
 	r.Set("evaluations", files+toks+holes+longs)
 	r.Set("distinct_nontrivial", validFiles+tokValid+holesValid+longsValid)
-	r.Set("rule", "grammar: (A) every context (BOM? x leading comment x separator x trailer) x every single import declaration; (B) reduced contexts x every pair of declarations from a reduced set; (C) ten skeleton files with one hole filled by every token string of <= skeleton_hole_max_tokens over {/,*,LF,SP,a,;}, and three string-literal holes filled over {a,\\,\",x,6,1,`,LF,/,*}; (D) the same thirteen holes filled with one long element (line comment, two block-comment shapes, blanks, newlines, identifier, string content, a run of short comments) of every length 4080..4100, 8186..8196, 16384 and 65537 bytes; plus every token string of length <= max_tokens over the 18-token lexical alphabet. non-trivial = accepted by go/parser as a complete valid file (so the import-list and prefix rules apply), counted")
+	r.Set("rule", "grammar: (A) every context (BOM? x leading comment x separator x trailer) x every single import declaration; (A2) every single byte and every 2-3 character string over the boundaries of the identifier classes {A,Z,a,z,0,9,_,M,é,@,[,`,{,/,:} as package name and as import name; (B) reduced contexts x every pair of declarations from a reduced set; (C) ten skeleton files with one hole filled by every token string of <= skeleton_hole_max_tokens over {/,*,LF,SP,a,;}, and three string-literal holes filled over {a,\\,\",x,6,1,`,LF,/,*}; (D) the same thirteen holes filled with one long element (line comment, two block-comment shapes, blanks, newlines, identifier, string content, a run of short comments) of every length 4080..4100, 8186..8196, 16384 and 65537 bytes; plus every token string of length <= max_tokens over the 18-token lexical alphabet. non-trivial = accepted by go/parser as a complete valid file (so the import-list and prefix rules apply), counted")
 	r.Set("generated_files", files)
 	r.Set("generated_files_valid", validFiles)
 	r.Set("generated_files_rejected_by_go_parser_not_judged", rejected)
